@@ -71,23 +71,34 @@ def theorems_of(module):
 
 
 def audit_axioms(modules, pid):
-    """`#print axioms` for every theorem of the property modules."""
+    """`#print axioms` for every theorem of the property modules (one audit file per module: helper lemma
+    files of different modules may define the same auxiliary names and cannot always be imported together)."""
     if isinstance(modules, str):
         modules = [modules]
-    thms = [t for m in modules for t in theorems_of(m)]
     WORK.mkdir(exist_ok=True)
-    f = WORK / f"Audit_{pid}.lean"
-    f.write_text("".join(f"import {m}\n" for m in modules) + "".join(f"#print axioms {t}\n" for t in thms))
-    rc, out = sh(["lake", "env", "lean", str(f)], cwd=LEAN)
-    res = {}
-    # output: "'Rx.C03_chain' depends on axioms: [propext, ...]" or "... does not depend on any axioms"
-    for m in re.finditer(r"'([^']+)' (?:depends on axioms: \[([^\]]*)\]|does not depend on any axioms)", out, flags=re.S):
-        axs = [a.strip() for a in (m.group(2) or "").replace("\n", " ").split(",") if a.strip()]
-        res[m.group(1)] = axs
+    thms, res, logs, rc_all = [], {}, "", 0
+
+    def one(m):
+        ts = theorems_of(m)
+        f = WORK / f"Audit_{pid}_{m.split('.')[-1]}.lean"
+        f.write_text(f"import {m}\n" + "".join(f"#print axioms {t}\n" for t in ts))
+        rc, out = sh(["lake", "env", "lean", str(f)], cwd=LEAN)
+        return ts, rc, out
+
+    with cf.ThreadPoolExecutor(max_workers=8) as ex:
+        for ts, rc, out in ex.map(one, modules):
+            thms += ts
+            rc_all = rc_all or rc
+            # "'Rx.C03_chain' depends on axioms: [propext, ...]" or "... does not depend on any axioms"
+            for m in re.finditer(r"'([^']+)' (?:depends on axioms: \[([^\]]*)\]|does not depend on any axioms)", out, flags=re.S):
+                axs = [a.strip() for a in (m.group(2) or "").replace("\n", " ").split(",") if a.strip()]
+                res[m.group(1)] = axs
+            if rc != 0:
+                logs += out
     bad = {t: a for t, a in res.items() if not set(a) <= ALLOWED_AXIOMS}
     missing = [t for t in thms if t not in res]
-    return {"theorems": thms, "axioms": res, "bad": bad, "missing": missing, "rc": rc,
-            "log": out if (rc != 0 or missing) else ""}
+    return {"theorems": thms, "axioms": res, "bad": bad, "missing": missing, "rc": rc_all,
+            "log": logs if (rc_all != 0 or missing) else ""}
 
 
 def build_harness():
